@@ -94,6 +94,11 @@ def scale_product_term(qm, inp_scale, x_in, dtype):
 
 
 def exec_case(case):
+    with M.repeatable_kernels("conv" in case["model"]):
+        return _exec_case(case)
+
+
+def _exec_case(case):
     out = Outcome()
     g = torch.Generator().manual_seed(case["seed"])
     dtype = gen.DT[case["dtype"]]
